@@ -153,6 +153,7 @@ def run(ctx):
         for i, nm in ((1, "timestamp"), (4, "block_number"), (5, "block_hash")):
             a = origin(fn, c.args[i])
             R.ob(mentions(a, nm), "WIRE", c.where(), "WIRE|drain|%s" % nm, "drained transaction executes with %s = `%s`" % (nm, show(a)[:60]))
+    ER.clause_park_rows_together(R, F)
     # finalise always clears the pool
     fin = [g for g in F.fns.values() if g.name.startswith("engine::engine::BRC20ProgEngine::finalise_block") and any((c.method or "") == "clear_txpool" for c in g.calls())]
     R.ob(bool(fin) and all(must_pass_on_success(g, [c.bb for c in g.calls() if (c.method or "") == "clear_txpool"]) for g in fin), "DOM-all",
